@@ -218,7 +218,7 @@ def gen_str(e, d):
         return 'join(%s, %s)' % (gen_list(e, r.choice(['str', 'num']), d - 1), r.choice(['", "', '"-"', '""']))
     if c == 9:
         s = r.choice([x for x in STRS if len(x) > 4])
-        return '%s[%s]' % (s, r.choice(['0', '1', '-1', '0.9', '1:', ':2', '::2', '::-1', '1:3', ':-1:', '1::']))
+        return '%s[%s]' % (s, r.choice(['0', '1', '-1', '0.9', '1:', ':2', '::2', '::-1', '1:3', ':-1:', '1::', ':0', '0:', '2:0', '0:0', ':0.4', '::0', ':len("")', '1:(1 - 1)']))
     if c == 10:
         what = r.choice(['int', 'str', 'list', 'dict'])
         if what == 'int':
@@ -302,7 +302,7 @@ def gen_list(e, et, d):
     if c == 9:
         return 'reversed(%s)' % gen_list(e, et, d - 1)
     if c == 10:
-        return '%s[%s]' % (gen_list(e, et, d - 1), r.choice(['1:', ':2', '::2', '::-1', '1:3', ':-1', '-2:', '0.5:2.9', ':', '1::', ':2:', '::1']))
+        return '%s[%s]' % (gen_list(e, et, d - 1), r.choice(['1:', ':2', '::2', '::-1', '1:3', ':-1', '-2:', '0.5:2.9', ':', '1::', ':2:', '::1', ':0', '0:', '2:0', '0:0', ':0.4', '::0', ':len([])', '1:(1 - 1)', '0:1', '-1:0']))
     if c == 11 and et == 'str':
         return r.choice(['keys(%s)' % gen_dict(e, 'num', d - 1), 'split(%s, %s)' % (gen_str(e, d - 1), r.choice(['","', '" "', '"a"'])), 'split(%s)' % gen_str(e, d - 1),
                          'match_all(%s, %s)' % (gen_str(e, d - 1), r.choice(['"[a-z]"', '"l+"', '"\\\\d+"']))])
